@@ -143,8 +143,6 @@ def inproc(ctx):
             t.pop("trace_on", None)
             t.pop("trace_off", None)
         fo = F.assign_times(rng, F.gen_shape(rng, 6, rng.choice([3, 8, 20]), 6), durs=_c05.DURS)
-        if height(fo) > (cfg.get("max_stack") or 1024):
-            cfg.pop("max_stack", None)
         add(cfg, fo, F.flatten(fo), "filtered", check=False, tags=["trig:" + k for t in cfg["trig"].values() for k in t])
     # evaluate
     terms = []
@@ -155,8 +153,9 @@ def inproc(ctx):
             checks.append((i, coq_plain_check(c["cfg"], c["forest"], c["res"]["recs"])))
         elif c["kind"] == "filtered":
             checks.append((i, "ok_emb %s %s" % (F.coq_forest(c["forest"]), mcgen.coq_recs(c["res"]["recs"]))))
-        if c["check"] and c["kind"] == "random" and height(c["forest"]) <= (c["cfg"].get("max_stack") or 1024):
-            # plain option sets are switch-free too: the weaker statement must hold as well
+        if c["kind"] in ("random", "deep") and not c["variant"]:
+            # plain option sets are switch-free too: the weaker statement must hold as well, at any depth
+            # (also beyond --max-stack: C02_filtered_trace_is_subhistory_any_depth)
             checks.append((i, "ok_emb %s %s" % (F.coq_forest(c["forest"]), mcgen.coq_recs(c["res"]["recs"]))))
     for (i1, i2) in prefix_pairs:
         checks.append((i1, "prefix5 %s %s" % (mcgen.coq_recs(cases[i1]["res"]["recs"]), mcgen.coq_recs(cases[i2]["res"]["recs"]))))
